@@ -83,8 +83,23 @@ def job_ipow(ns_lo, ns_hi):
             self.v = v
             self.real, self.imag = v, Q(0)
     ns = dict(cx_constants())
-    ns.update({'isfinite': lambda v: True, 'ceil': lambda v: Q.of(v), 'NAN': Q.sym('NAN'), 'cf_clog': None, 'cf_cexp': None,
-               'cf_build_dblcmplx': lambda re, im: Q.of(re)})
+    # |n| >= 100 goes through exp(n log a): clog is an uninterpreted pair (log_re, log_im), cexp records its argument; the obligation is structural (argument = n * log a)
+    log_re, log_im, exp_out = Q.sym('clog_re'), Q.sym('clog_im'), Q.sym('cexp_out')
+    exp_args = []
+
+    class _Pair:
+        def __init__(self, re, im):
+            self.real, self.imag = Q.of(re), Q.of(im)
+
+    def _build(re, im):
+        imq = Q.of(im)
+        return Q.of(re) if (imq.is_const and imq.const() == 0) else _Pair(re, im)
+
+    def _cexp(v):
+        exp_args.append(v)
+        return exp_out
+    ns.update({'isfinite': lambda v: True, 'ceil': lambda v: Q.of(v), 'NAN': Q.sym('NAN'), 'cf_clog': lambda v: _Pair(log_re, log_im), 'cf_cexp': _cexp,
+               'cf_build_dblcmplx': _build})
     fns, ns = loader.load_pyx(CX, ['cf_cipow', 'cf_cpow'], ns)
     A = [a.re != 0]
     results = []
@@ -93,7 +108,12 @@ def job_ipow(ns_lo, ns_hi):
     for n in nlist:
         # plain python ints for n; `a` real indeterminate; zero tests a_real == 0 resolved by the fact a != 0
         CTX.facts = A
+        exp_args.clear()
         r = fns['cf_cipow'](a, n)
+        if abs(n) >= 100:
+            okk = len(exp_args) == 1 and isinstance(exp_args[0], _Pair) and r is exp_out
+            conds_i.append((n, z3.And(z3.BoolVal(okk), eq_goal(exp_args[0].real, log_re * n), eq_goal(exp_args[0].imag, log_im * n)) if okk else z3.BoolVal(False)))
+            continue
         want = atoms.power(a, n)
         conds_i.append((n, eq_goal(Q.of(r), want)))
         if -100 < n < 100:
@@ -114,7 +134,7 @@ def job_ipow(ns_lo, ns_hi):
         return bad is not None, '%s(0.9+0.5j, n): %r' % (which, bad)
     for i in range(0, len(conds_i), 40):
         chunk = conds_i[i:i + 40]
-        results.append(discharge(Obligation('cf_cipow(a, n) == a^n for n in %d..%d (binary exponentiation, each n executed)' % (chunk[0][0], chunk[-1][0]), z3.And(*[c for _, c in chunk]), A,
+        results.append(discharge(Obligation('cf_cipow(a, n) == a^n for n in %d..%d (binary exponentiation, each n executed; |n| >= 100: the result is cexp(n * clog(a)))' % (chunk[0][0], chunk[-1][0]), z3.And(*[c for _, c in chunk]), A,
                                             replay=lambda md: rp(md, 'cipow'), key='cipow')))
     for i in range(0, len(conds_p), 40):
         chunk = conds_p[i:i + 40]
